@@ -52,8 +52,15 @@ func collectModelTerms(entry *State, name string, t types.Type, v Value, depth i
 	case *IfaceV:
 		add(name+".tid", x.Tid)
 		add(name+".ref", x.Ref)
+		if isStreamType(t) {
+			addStreamTerms(heapAt, name, x.Ref, add)
+		}
 	case *MapV:
 		add(name+".ref", x.Ref)
+	case *FuncV:
+		if x.Opq != nil {
+			add(name, x.Opq)
+		}
 	case *StructV:
 		for i, f := range x.F {
 			collectModelTerms(entry, name+"."+x.T.Field(i).Name(), x.T.Field(i).Type(), f, depth, add)
@@ -65,6 +72,9 @@ func collectModelTerms(entry *State, name string, t types.Type, v Value, depth i
 	case *PtrV:
 		if x.Kind == PObj && len(x.Path) == 0 {
 			add(name, x.Base)
+			if isStreamType(t) {
+				addStreamTerms(heapAt, name, x.Base, add)
+			}
 			if depth > 0 {
 				func() {
 					defer func() { recover() }()
@@ -82,6 +92,37 @@ func collectModelTerms(entry *State, name string, t types.Type, v Value, depth i
 			add(name, x.Arr)
 		}
 	}
+}
+
+// isStreamType: values of this type carry a ghost byte stream (what they read from / write to)
+func isStreamType(t types.Type) bool {
+	if t == nil {
+		return false
+	}
+	switch t.String() {
+	case "io.Reader", "io.Writer", "io.ReadWriter", "io.ReadCloser", "io.WriteCloser", "net.Conn", "*bufio.Reader", "*bufio.Writer":
+		return true
+	}
+	return false
+}
+
+const streamModelBytes = 192
+
+// addStreamTerms asks the model for the entry state of the ghost streams of a reader/writer value: the unread input
+// (position, length, first bytes, terminal error) and the output written so far (length, capacity before it fails).
+func addStreamTerms(heapAt func(string, Sort) *Term, name string, ref *Term, add func(string, *Term)) {
+	get := func(k string, s Sort) *Term { return Select(heapAt("ghost:"+k, ArrSort(SInt, s)), ref) }
+	pos := get("rd.pos", BV(64))
+	add(name+".rd.pos", pos)
+	add(name+".rd.len", get("rd.len", BV(64)))
+	add(name+".rd.err.tid", get("rd.err.tid", SInt))
+	add(name+".rd.err.ref", get("rd.err.ref", SInt))
+	data := get("rd.data", ArrSort(BV(64), BV(8)))
+	for i := 0; i < streamModelBytes; i++ {
+		add(fmt.Sprintf("%s.rd[%d]", name, i), Select(data, BVAdd(pos, BVConst(uint64(i), 64))))
+	}
+	add(name+".wr.len", get("wr.len", BV(64)))
+	add(name+".wr.limit", get("wr.limit", BV(64)))
 }
 
 type Evidence struct {
@@ -239,6 +280,17 @@ func cmdCheck(args []string) int {
 	}
 	ex := NewExec(prog, specs)
 	ex.setupGlobals(pkgs)
+	extraModelTerms = func(entry *State, add func(string, *Term)) {
+		defer func() { recover() }()
+		if entry == nil {
+			return
+		}
+		for _, n := range []string{"EOF", "ErrUnexpectedEOF"} {
+			v := ex.ioEOF(entry.Clone(), n)
+			add("$io."+n+".tid", v.Tid)
+			add("$io."+n+".ref", v.Ref)
+		}
+	}
 	axioms := map[string][]*Term{}
 	var fnsUnder []string
 	var unsup []string
